@@ -34,6 +34,10 @@ CHECKS = {
         text="Lean theorems: beq (the model of Python == on predicates) is sound w.r.t. eval for every interpretation, reflexive, symmetric, unordered on &,|,^, and separates every parameter; can_optimize definition; tie: model beq vs real == on ALL ordered pairs of a pool with every exported constructor (structurally equal fresh copies on the right), then reflexivity/symmetry/agreement on probe values on the real objects.",
         note=TB + "Parameters are interned by Python ==/hash (functions, getters by identity). this_p/root_p/lazy_p are opaque leaves (excepted by the property).",
         tech="Lean 4 proof (induction on the tree) + differential correspondence (beq)", ref="§7 C06"),
+    "C13": dict(
+        text="Lean theorems C13_*: for every atom constructor with universally quantified parameters, each of the 28 law instances (both operand orders) is an equation on the model's output for every fuel >= 3 (30 theorems by case analysis over the 31 atom constructors; p & p under the hypothesis that the subset arm is not the implemented one, with a partial form and a decide-witness for is_subset_p(set())); tie: model vs predicate.optimize on all 28 laws x 132 atoms incl. opaque kinds, and the result compared with the result the property names.",
+        note=TB + "Open defect KF-subsetEmpty is a KNOWN-FINDING (p & p for p = is_subset_p(set())).",
+        tech="Lean 4 proof (case analysis per atom constructor, simp) + differential correspondence (opt)", ref="§7 C13"),
 }
 
 PENDING = {}
